@@ -229,8 +229,10 @@ def run(ctx):
         k = int(rng.integers(lo, hi + 1))
         return [WIRES[int(i)] for i in rng.permutation(3)[:k]]
 
-    def gen_request(rng):
+    def gen_request(rng, force_vector_broadcast=False):
         shots_kind = ["analytic", "int", "vector"][int(rng.choice(3, p=[0.4, 0.3, 0.3]))]
+        if force_vector_broadcast:
+            shots_kind = "vector"
         if shots_kind == "analytic":
             spec, flat = None, None
             kinds = ["expval", "var", "probs", "probs", "state", "density_matrix", "purity", "vn_entropy", "mutual_info", "expval"]
@@ -268,6 +270,9 @@ def run(ctx):
         if not meas:
             meas = [{"k": "expval", "obs": gen_obs(rng)}]
         B = [None, None, None, 1, 3][int(rng.integers(5))]
+        if force_vector_broadcast:
+            meas = [m for m in meas if m["k"] != "counts"] or [{"k": "expval", "obs": gen_obs(rng)}]
+            B = [2, 3, 3, 1][int(rng.integers(4))]
         if any(m["k"] == "counts" for m in meas):
             B = None
         return {"meas": meas, "shots": spec, "flat": flat, "B": B}
@@ -306,8 +311,10 @@ def run(ctx):
             return torch.tensor(x, dtype=torch.float64, requires_grad=rg), torch.tensor(y, requires_grad=rg)
         raise ValueError(iface)
 
-    def forward_case(rng, gi):
-        req = gen_request(rng)
+    def forward_case(rng, gi, cheap=False):
+        # cheap=True: broadcasting x partitioned shots (repeated counts included) on every device with the numpy interface and no
+        # differentiation -- devices without native broadcasting go through broadcast_expand, whose post-processing rebuilds the shot axis
+        req = gen_request(rng, force_vector_broadcast=cheap)
         info = {"measurements": req["meas"], "shots": req["shots"], "broadcast": req["B"]}
         nontriv = len(req["meas"]) > 1 or (req["flat"] and len(req["flat"]) > 1) or req["B"] is not None or any(m["k"] not in ("expval", "var") for m in req["meas"])
         ctx.case(fingerprint("fwd", repr(info)), nontrivial=bool(nontriv), cls=f"forward/{'analytic' if req['shots'] is None else ('vector' if len(req['flat']) > 1 else 'int')}/B={req['B']}",
@@ -315,8 +322,12 @@ def run(ctx):
         want = spec_forward(req["meas"], req["flat"], req["B"], 3)
         configs = [("default.qubit", "numpy", "best")]
         pool = [(d, i, f_) for d in DEVS for i in IFACES for f_ in DIFFS]
-        for idx in rng.permutation(len(pool))[: (5 if ctx.quick else 8)]:
-            configs.append(pool[int(idx)])
+        if cheap:
+            configs += [(d, "numpy", None) for d in DEVS[1:]]
+            ctx.count("forward.cheap_vector_broadcast")
+        else:
+            for idx in rng.permutation(len(pool))[: (5 if ctx.quick else 8)]:
+                configs.append(pool[int(idx)])
         got = {}
         for cfg in configs:
             d, i, df = cfg
@@ -496,6 +507,7 @@ def run(ctx):
         r = rng.random()
         if r < 0.55:
             forward_case(rng, gi)
+            forward_case(ctx.case_rng(10_000_019 + gi), gi, cheap=True)
         elif r < 0.92:
             jac_case(rng, gi)
         else:
